@@ -668,7 +668,16 @@ func c32ExecW(a []string) string {
 		return fmt.Sprintf("W eT 0 %s B %s T %s %s", dOK, fnv64s(fileOf()), tee(false), c32Read(fileOf()))
 	}
 	st, nerr := "ok", 0
+	// like a receive loop: every packet's payload lives in ONE reused read buffer, which is overwritten
+	// by the next packet (a writer that keeps a reference instead of a copy corrupts its pending frame).
+	// Not for AV1: pion/rtp's AV1Depacketizer (external) itself keeps a reference to an unfinished OBU
+	// fragment across packets, so a reused buffer corrupts AV1 frames before ivfwriter sees them.
+	shared := make([]byte, 0, 1<<16)
 	for k, p := range pkts {
+		if codec != "a" {
+			shared = append(shared[:0], p.raw...)
+			p.raw = shared
+		}
 		panicked := false
 		func() {
 			defer func() {
